@@ -22,6 +22,7 @@ def showExc : Option Exc → String
   | some .indexError => "IndexError"
   | some .unicodeError => "UnicodeDecodeError"
   | some .malformedPacket => "MalformedPacket"
+  | some .runtimeError => "RuntimeError"
 
 /-- second component: `i<int>` or `o<options byte>` -/
 def parseSecond (s : String) : Option (Second Nat) :=
